@@ -56,6 +56,10 @@ theorem H_congr {a b : Nat} (h : a = b) : H a = H b := by rw [h]
 theorem Vec.ext' {v : Vec} {s : List Slot} (h : v.slots = s) :
     v = { v with slots := s } := by cases v; simp_all
 
+theorem Vec.eta_seg {v : Vec} {s : List Slot} {n : Nat} (h : v.slots = s) (hn : v.len = n) :
+    ({ v with slots := s, len := n, dropLog := v.dropLog ++ [] } : Vec) = v := by
+  cases v; simp_all
+
 /-! ## primitives on segmented buffers -/
 
 theorem peek_mid {v : Vec} {A B : List Slot} {x i : Nat} (hs : v.slots = A ++ Slot.init x :: B) (hi : i = A.length) :
@@ -75,6 +79,34 @@ theorem readOut_mid {v : Vec} {A B : List Slot} {x i : Nat} (hs : v.slots = A ++
 theorem write_mid {v : Vec} {A B : List Slot} {x i : Nat} (hs : v.slots = A ++ Slot.hole :: B) (hi : i = A.length) :
     write v i x = .ok { v with slots := A ++ Slot.init x :: B } := by
   subst hi; simp [write, hs]
+
+/-- dropping a run of initialised slots: all of them are dropped front to back (also past a panicking
+    `Drop`), the flag reports whether one of them panicked -/
+theorem dropRange_seg (bombs : List Id) (xs : List Id) :
+    ∀ (u : Bool) (v : Vec) (A B : List Slot) (i : Nat), v.slots = A ++ I xs ++ B → i = A.length →
+      dropRange bombs u v i xs.length =
+        .ok ({ v with slots := A ++ H xs.length ++ B, dropLog := v.dropLog ++ xs }, !u && xs.any bombs.contains) := by
+  induction xs with
+  | nil =>
+    intro u v A B i hs hi
+    simp only [List.length_nil, dropRange, List.any_nil, Bool.and_false, H_zero, List.append_nil]
+    congr 2
+    exact Vec.ext' (by simpa using hs)
+  | cons x xs ih =>
+    intro u v A B i hs hi
+    have hs1 : v.slots = A ++ Slot.init x :: (I xs ++ B) := by simp [hs]
+    simp only [List.length_cons, dropRange]
+    rw [dropAt_mid hs1 hi]
+    have hs2 : A ++ Slot.hole :: (I xs ++ B) = (A ++ [Slot.hole]) ++ I xs ++ B := by simp
+    have := ih (u || (!u && bombs.contains x)) { v with slots := A ++ Slot.hole :: (I xs ++ B), dropLog := v.dropLog ++ [x] }
+      (A ++ [Slot.hole]) B (i + 1) hs2 (by simp [hi])
+    simp only [this]
+    congr 2
+    · simp
+    · simp only [List.any_cons]
+      generalize bombs.contains x = c
+      generalize xs.any bombs.contains = a
+      cases u <;> cases c <;> cases a <;> rfl
 
 theorem copyClobbers_none_of {s : List Slot} {src dst n : Nat}
     (h : ∀ k, k < n → (src ≤ dst + k ∧ dst + k < src + n) ∨ s[dst + k]?.getD .hole = .hole) :
